@@ -1,6 +1,7 @@
 """C15 - leaf format validators decide exact grammars; one spelling per key."""
 import random
 
+from ..engines import noise
 from ..gen import caselang, jsonvals, keys as gkeys
 from ..monitors import boundary
 from ..refs import schema
@@ -173,6 +174,8 @@ def run_strings(spec, rec, lib):
                 accepted_keys[b] = a
         if i % 5 == 0:
             pair_agreement(a, rec, lib)
+        if i % 200 == 17:
+            noise.tick(lib, rng, spec.get("scratch"))
         if i < 2:
             rec.sample({"input": a, "class": cls})
     rec.count("accepted_key_strings", len(accepted_keys))
